@@ -12,9 +12,9 @@ from vlib.lab import Lab
 PROPERTY_ID = "C12"
 LEVEL = "exploration"
 RULE = (
-    "Generated: 1-4 inner traced sources (cold / synchronous / hot / leaky = keeps pushing after it was unsubscribed, the "
-    "only way to present a stale inner's notification in a single-threaded run; 0-4 distinct ints each, gaps 0-3, terminal "
-    "completion / error / none) and an outer timeline (cold / synchronous / hot, 0-5 elements selecting inners, terminal "
+    "Generated: 1-4 (thorough 1-5) inner traced sources (cold / synchronous / hot / leaky = keeps pushing after it was unsubscribed, the "
+    "only way to present a stale inner's notification in a single-threaded run; 0-4 (thorough 0-6) distinct ints each, gaps 0-3, terminal "
+    "completion / error / none) and an outer timeline (cold / synchronous / hot, 0-5 (thorough 0-7) elements selecting inners, terminal "
     "completion / error / none); forms switch_latest, switch_map (mapper and default-identity forms), switch_map_indexed, "
     "flat_map_latest; subscribed at a generated tick on the virtual scheduler. Oracle: an independent discrete-event "
     "reference (plain Python, own priority queue) of 'forward only the latest inner' gives the exact expected trace "
@@ -162,14 +162,17 @@ def _run(case):
     return OK(cuts >= 1, cls)
 
 
+_KINDS = ("cold", "cold", "sync", "hot", "leaky", "cold")
+
+
 @st.composite
-def _cases(draw):
-    inn = draw(inner_specs(kinds=("cold", "cold", "sync", "hot", "leaky", "cold")))
+def _cases(draw, big=False):
+    inn = draw(inner_specs(max_inners=5, max_len=6, kinds=_KINDS) if big else inner_specs(kinds=_KINDS))
     form = draw(st.sampled_from(FORMS))
-    return {"form": form, "inners": inn, "t0": draw(st.integers(0, 3)), "outer": draw_outer(draw, len(inn))}
+    return {"form": form, "inners": inn, "t0": draw(st.integers(0, 3)), "outer": draw_outer(draw, len(inn), max_len=7 if big else 5)}
 
 
 def checks(tier):
     return [
-        Check("switch", _run, strategy=_cases(), examples={"quick": 3200, "thorough": 16 * 30000}, shards={"quick": 4, "thorough": 16}),
+        Check("switch", _run, strategy=_cases(tier == "thorough"), examples={"quick": 3200, "thorough": 16 * 30000}, shards={"quick": 4, "thorough": 16}),
     ]
